@@ -94,7 +94,11 @@ Lin(t) ==
             /\ UNCHANGED <<res, open, inbr, shut, weak, created>>
        [] p.op = "Call" ->
             /\ IF hs[p.h].st = "nil" THEN pend' = [pend EXCEPT ![t].lin = TRUE, ![t].result = "err:null"] /\ UNCHANGED inbr
-               ELSE IF hs[p.h].st # "live" THEN pend' = [pend EXCEPT ![t].lin = TRUE, ![t].result = "err:released"] /\ UNCHANGED inbr
+               \* a released client whose capability had resolved to null answers with either error: which one depends on whether the
+               \* resolution had been noticed (by an earlier operation on that client) before the Release - both are error answers
+               ELSE IF hs[p.h].st # "live" THEN /\ \E r \in (IF hs[p.h].st = "released" /\ Target(hs[p.h].den) = "NULL" THEN {"err:released", "err:null"} ELSE {"err:released"}) :
+                                                     pend' = [pend EXCEPT ![t].lin = TRUE, ![t].result = r]
+                                                /\ UNCHANGED inbr
                ELSE LET k == Target(hs[p.h].den) IN
                     IF k = "NULL" THEN pend' = [pend EXCEPT ![t].lin = TRUE, ![t].result = "err:null"] /\ UNCHANGED inbr
                     ELSE /\ shut[k] = 0                      \* a call never enters a hook that was shut down
